@@ -24,6 +24,12 @@ CtlNew(W, H, bus, rm) ==
 
 Flag(c, f) == [c EXCEPT !.flags = @ \cup {f}]
 
+\* new over old.  (TLC's @@ searches the left domain linearly for every right element -- quadratic for
+\* two large pictures; this form is n log n.)
+Merge(new, old) ==
+  IF DOMAIN old = {} THEN new ELSE
+  LET dn == DOMAIN new IN [c \in dn \cup DOMAIN old |-> IF c \in dn THEN new[c] ELSE old[c]]
+
 \* physical cell addressed by (column, page) under address mode m
 CellOf(m, W, H, col, page) ==
   LET px0 == IF Bit(m, 5) THEN page ELSE col
@@ -73,7 +79,7 @@ ApplyBurst(c) ==
                    IN PixelAt(c, ws, (IF np > area THEN LastK(i) ELSE i) + 1)
       fl2 == (IF np > area THEN {"overrun"} ELSE {}) \cup
              (IF Cardinality(idx) # nn THEN {"oob_addr"} ELSE {})
-  IN [c EXCEPT !.fb = [cell \in cells |-> Val(cell)] @@ c.fb, !.flags = @ \cup fl1 \cup fl2]
+  IN [c EXCEPT !.fb = Merge([cell \in cells |-> Val(cell)], c.fb), !.flags = @ \cup fl1 \cup fl2]
 
 FbView(c) == ApplyBurst(c).fb
 
